@@ -71,23 +71,40 @@ pub struct LetChain {
     pub n: usize,
     pub err: Option<String>,
 }
+fn and_operands(e: &syn::Expr, out: &mut Vec<syn::Expr>) {
+    if let syn::Expr::Binary(b) = e {
+        if matches!(b.op, syn::BinOp::And(_)) {
+            and_operands(&b.left, out);
+            and_operands(&b.right, out);
+            return;
+        }
+    }
+    out.push(e.clone());
+}
 impl VisitMut for LetChain {
     fn visit_expr_mut(&mut self, e: &mut syn::Expr) {
         visit_mut::visit_expr_mut(self, e);
         let syn::Expr::If(i) = e else { return };
-        if let syn::Expr::Binary(b) = &*i.cond {
-            if matches!(b.op, syn::BinOp::And(_)) && matches!(&*b.left, syn::Expr::Let(_)) {
-                if i.else_branch.is_some() {
-                    self.err = Some("unsupported: let-chain with else branch".into());
-                    return;
-                }
-                let left = &b.left;
-                let right = &b.right;
-                let then = &i.then_branch;
-                *e = syn::parse_quote!(if #left { if #right #then });
-                self.n += 1;
+        let mut ops = vec![];
+        and_operands(&i.cond, &mut ops);
+        if ops.len() < 2 || !ops.iter().any(|o| matches!(o, syn::Expr::Let(_))) {
+            return;
+        }
+        if i.else_branch.is_some() {
+            self.err = Some("unsupported: let-chain with else branch".into());
+            return;
+        }
+        // `if a && let P = e && b { T }` == `if a { if let P = e { if b { T } } }` (no else branch: nothing to duplicate)
+        let then = &i.then_branch;
+        let mut body: syn::Expr = syn::parse_quote!(#then);
+        for (k, op) in ops.iter().enumerate().rev() {
+            body = if k == 0 { syn::parse_quote!(if #op #body) } else { syn::parse_quote!({ if #op #body }) };
+            if k > 0 {
+                // `body` must be a block for the enclosing `if`
             }
         }
+        *e = body;
+        self.n += 1;
     }
 }
 
